@@ -85,6 +85,19 @@ def _eval_index(m, f, o, cb, N, iv=None, ival=None):
         return N
     if o[0] == "i":
         i = f.insts[o[1]]
+        if i.op == "select":
+            c = f.insts[i.ops[0][1]] if i.ops[0][0] == "i" else None
+            if c is not None and c.op == "icmp":
+                a = _eval_index(m, f, c.ops[0], cb, N, iv, ival)
+                b = _eval_index(m, f, c.ops[1], cb, N, iv, ival)
+                if a is None or b is None:
+                    return None
+                tr = {"eq": a == b, "ne": a != b, "slt": a < b, "sle": a <= b, "sgt": a > b, "sge": a >= b,
+                      "ult": 0 <= a < b, "ule": 0 <= a <= b, "ugt": a > b >= 0, "uge": a >= b >= 0}.get(c.pred)
+                if tr is None:
+                    return None
+                return _eval_index(m, f, i.ops[1] if tr else i.ops[2], cb, N, iv, ival)
+            return None
         if i.op in ("add", "sub", "srem", "urem") and len(i.ops) == 2:
             a = _eval_index(m, f, i.ops[0], cb, N, iv, ival)
             b = _eval_index(m, f, i.ops[1], cb, N, iv, ival)
